@@ -420,4 +420,53 @@ theorem raw_slices_infix (lax : Bool) (sh : Shape) (bs : Bytes) (f : Forest) (h 
     | panic x => rw [hu] at h; cases h
     | diverge => rw [hu] at h; cases h
 
+/-! ### structural edits: siblings of a forest -/
+
+namespace Forest
+
+theorem emit_eq_sibs (f : Forest) : emit f = (sibs f).flatten := by
+  induction f with
+  | nil => simp [emit, sibs]
+  | raw full next ih => simp [emit, sibs, ih]
+  | rawc t full next ih => simp [emit, sibs, ih]
+  | prim t c next ih => simp [emit, sibs, ih]
+  | node t k next _ ih => simp [emit, sibs, ih]
+
+theorem sibs_append (a b : Forest) : sibs (append a b) = sibs a ++ sibs b := by
+  induction a with
+  | nil => simp [append, sibs]
+  | raw full next ih => simp [append, sibs, ih]
+  | rawc t full next ih => simp [append, sibs, ih]
+  | prim t c next ih => simp [append, sibs, ih]
+  | node t k next _ ih => simp [append, sibs, ih]
+
+theorem sibs_takeSibs (i : Nat) (f : Forest) : sibs (takeSibs i f) = (sibs f).take i := by
+  induction f generalizing i with
+  | nil => cases i <;> simp [takeSibs, sibs]
+  | raw full next ih => cases i <;> simp [takeSibs, sibs, ih]
+  | rawc t full next ih => cases i <;> simp [takeSibs, sibs, ih]
+  | prim t c next ih => cases i <;> simp [takeSibs, sibs, ih]
+  | node t k next _ ih => cases i <;> simp [takeSibs, sibs, ih]
+
+theorem sibs_dropSibs (i : Nat) (f : Forest) : sibs (dropSibs i f) = (sibs f).drop i := by
+  induction f generalizing i with
+  | nil => cases i <;> simp [dropSibs, sibs]
+  | raw full next ih => cases i <;> simp [dropSibs, sibs, ih]
+  | rawc t full next ih => cases i <;> simp [dropSibs, sibs, ih]
+  | prim t c next ih => cases i <;> simp [dropSibs, sibs, ih]
+  | node t k next _ ih => cases i <;> simp [dropSibs, sibs, ih]
+
+/-- an edited field list: the fields before and after `i` are the old ones -/
+theorem sibs_editField (i : Nat) (new f : Forest) :
+    sibs (editField i new f) = (sibs f).take i ++ (sibs new ++ (sibs f).drop (i + 1)) := by
+  simp [editField, sibs_append, sibs_takeSibs, sibs_dropSibs]
+
+end Forest
+
+theorem emit_detachSD_wrapSD (oid : Bytes) (kids : Forest) :
+    emit (detachSD (wrapSD oid kids)) =
+      tlv 0x30 (tlv 0x06 oid ++ tlv 0xA0 (tlv 0x30 (Forest.sibs (detachKids kids)).flatten)) := by
+  simp only [detachSD, wrapSD, Forest.inKids, emit, List.append_nil]
+  rw [Forest.emit_eq_sibs]
+
 end Relic.Der
